@@ -2,7 +2,7 @@
 (* Bounded instance of Imports for C11 (and the history clause of C12):  *)
 (* every import digraph over the files of FileSeq, every start file.     *)
 (* Every initial state is printed as one CASE line for the harness.      *)
-EXTENDS Imports, Json, SequencesExt
+EXTENDS Imports, Json, SequencesExt, Randomization
 
 CONSTANTS FileSeq,   \* the files in a fixed order (sequence without duplicates, range = File)
           Extras,    \* set of sequences of Special targets appended to a file's imports
@@ -16,21 +16,27 @@ AllExtras == {<<>>, <<"wk">>, <<"noloc">>, <<"missing">>, <<"wk", "noloc">>}
 Sib3 == <<"valid", "malformed", "nonschema">>
 NoSib == <<>>
 
-UriOf == [f \in {"f1.xsd", "f2.xsd", "f3.xsd", "f4.xsd"} |->
-            CASE f = "f1.xsd" -> "Ualpha" [] f = "f2.xsd" -> "Ubravo" [] f = "f3.xsd" -> "Ucharlie" [] OTHER -> "Udelta"]
-TypeOf == [f \in {"f1.xsd", "f2.xsd", "f3.xsd", "f4.xsd"} |->
-            CASE f = "f1.xsd" -> "TypeAlpha" [] f = "f2.xsd" -> "TypeBravo" [] f = "f3.xsd" -> "TypeCharlie" [] OTHER -> "TypeDelta"]
+AllFiles == {"f1.xsd", "f2.xsd", "f3.xsd", "f4.xsd", "f5.xsd", "f6.xsd"}
+UriOf == [f \in AllFiles |->
+            CASE f = "f1.xsd" -> "Ualpha" [] f = "f2.xsd" -> "Ubravo" [] f = "f3.xsd" -> "Ucharlie" [] f = "f4.xsd" -> "Udelta"
+              [] f = "f5.xsd" -> "Uecho" [] OTHER -> "Ufoxtrot"]
+TypeOf == [f \in AllFiles |->
+            CASE f = "f1.xsd" -> "TypeAlpha" [] f = "f2.xsd" -> "TypeBravo" [] f = "f3.xsd" -> "TypeCharlie" [] f = "f4.xsd" -> "TypeDelta"
+              [] f = "f5.xsd" -> "TypeEcho" [] OTHER -> "TypeFoxtrot"]
 
 Vocab == [names |-> [TypeAlpha |-> [xml |-> "TypeAlpha", pascal |-> "TypeAlpha"],
                      TypeBravo |-> [xml |-> "TypeBravo", pascal |-> "TypeBravo"],
                      TypeCharlie |-> [xml |-> "TypeCharlie", pascal |-> "TypeCharlie"],
                      TypeDelta |-> [xml |-> "TypeDelta", pascal |-> "TypeDelta"],
+                     TypeEcho |-> [xml |-> "TypeEcho", pascal |-> "TypeEcho"], TypeFoxtrot |-> [xml |-> "TypeFoxtrot", pascal |-> "TypeFoxtrot"],
+                     ElemEcho |-> [xml |-> "ElemEcho", pascal |-> "ElemEcho"], ElemFoxtrot |-> [xml |-> "ElemFoxtrot", pascal |-> "ElemFoxtrot"],
                      ElemAlpha |-> [xml |-> "ElemAlpha", pascal |-> "ElemAlpha"], ElemBravo |-> [xml |-> "ElemBravo", pascal |-> "ElemBravo"],
                      ElemCharlie |-> [xml |-> "ElemCharlie", pascal |-> "ElemCharlie"], ElemDelta |-> [xml |-> "ElemDelta", pascal |-> "ElemDelta"]],
           uris |-> [Ualpha |-> [uri |-> "http://zv.test/c11/alpha"],
                     Ubravo |-> [uri |-> "http://zv.test/c11/bravo"],
                     Ucharlie |-> [uri |-> "http://zv.test/c11/charlie"],
                     Udelta |-> [uri |-> "http://zv.test/c11/delta"],
+                    Uecho |-> [uri |-> "http://zv.test/c11/echo"], Ufoxtrot |-> [uri |-> "http://zv.test/c11/foxtrot"],
                     Uext |-> [uri |-> "http://zv.test/c11/external"],
                     XSD |-> [uri |-> "http://www.w3.org/2001/XMLSchema"]]]
 ASSUME PrintT(<<"VOCAB", ToJson(Vocab)>>)
@@ -43,16 +49,25 @@ MCInit == /\ g \in {MkG(sel, ex) : sel \in [File -> SUBSET File], ex \in [File -
 
 MCSpec == MCInit /\ [][Next]_vars /\ Fair
 
+\* beyond the exhaustive bound: a random sample of the digraphs over more files (the constant Sample gives its size)
+CONSTANT Sample
+FileSeq6 == <<"f1.xsd", "f2.xsd", "f3.xsd", "f4.xsd", "f5.xsd", "f6.xsd">>
+MCInitRandom == /\ g \in {MkG(sel, [f \in File |-> <<>>]) : sel \in RandomSubset(Sample, [File -> SUBSET File])}
+                /\ start \in File
+                /\ InitRest
+MCSpecRandom == MCInitRandom /\ [][Next]_vars /\ Fair
+
 ImportItem(t) == CASE t \in File -> [k |-> "import", ns |-> UriOf[t], loc |-> t]
                    [] t = "wk" -> [k |-> "import", ns |-> "XSD", loc |-> "xml.xsd"]
                    [] t = "noloc" -> [k |-> "import", ns |-> "Uext"]
                    [] OTHER -> [k |-> "import", ns |-> "Uext", loc |-> "nowhere.xsd"]
 
 Member == [k |-> "el", n |-> "value", ty |-> [k |-> "builtin", n |-> "string"], min |-> 1, max |-> "1"]
-PrefixOf == [f \in {"f1.xsd", "f2.xsd", "f3.xsd", "f4.xsd"} |->
-               CASE f = "f1.xsd" -> "pa" [] f = "f2.xsd" -> "pb" [] f = "f3.xsd" -> "pc" [] OTHER -> "pd"]
-ElemOf == [f \in {"f1.xsd", "f2.xsd", "f3.xsd", "f4.xsd"} |->
-               CASE f = "f1.xsd" -> "ElemAlpha" [] f = "f2.xsd" -> "ElemBravo" [] f = "f3.xsd" -> "ElemCharlie" [] OTHER -> "ElemDelta"]
+PrefixOf == [f \in AllFiles |->
+               CASE f = "f1.xsd" -> "pa" [] f = "f2.xsd" -> "pb" [] f = "f3.xsd" -> "pc" [] f = "f4.xsd" -> "pd" [] f = "f5.xsd" -> "pe" [] OTHER -> "pf"]
+ElemOf == [f \in AllFiles |->
+               CASE f = "f1.xsd" -> "ElemAlpha" [] f = "f2.xsd" -> "ElemBravo" [] f = "f3.xsd" -> "ElemCharlie" [] f = "f4.xsd" -> "ElemDelta"
+                 [] f = "f5.xsd" -> "ElemEcho" [] OTHER -> "ElemFoxtrot"]
 \* with RefsOn the type of a file refers to the global element of every other file it imports directly
 RefTargets(f) == SelectSeq(FileSeq, LAMBDA t : t # f /\ \E i \in 1..Len(g[f]) : g[f][i] = t)
 RefMembers(f) == IF RefsOn THEN [i \in 1..Len(RefTargets(f)) |->
